@@ -28,13 +28,15 @@ FLOORS = {"quick": {"cases_with_debug_logging": 750,
                     "overflow_rejections": 100, "roundtrips": 5000, "wrong_length_rejections": 300,
                     "yields_injected_inside_conversions": 20000,
                     "decorated_short_rejections": 300, "junk_around_valid_rejections": 600,
-                    "case_variant_rejections": 300, "damaged_canonical_rejections": 500},
+                    "case_variant_rejections": 300, "damaged_canonical_rejections": 500,
+                    "numbers_made_of_two_boundary_halves": 200, "quoted_strings": 80},
           "thorough": {"cases_with_debug_logging": 3000,
                        "distinct_nontrivial": 5000, "foreign_char_rejections": 2000, "look_alike_char_rejections": 3000, "braces_rejections": 3000,
                        "overflow_rejections": 1000, "roundtrips": 100000, "wrong_length_rejections": 10000,
                        "yields_injected_inside_conversions": 200000,
                        "decorated_short_rejections": 10000, "junk_around_valid_rejections": 20000,
-                       "case_variant_rejections": 10000, "damaged_canonical_rejections": 15000}}
+                       "case_variant_rejections": 10000, "damaged_canonical_rejections": 15000,
+                       "numbers_made_of_two_boundary_halves": 10000, "quoted_strings": 4000}}
 
 REF_ALPHABET = "23456789ABCDEFGHJKLMNPQRSTUVWXYZabcdefghijkmnopqrstuvwxyz"
 TOP = 2 ** 128
@@ -171,6 +173,12 @@ def one_case(ctx, rng, alpha, seen, i):
         k = rng.randint(0, 22)
         base = rng.choice([57 ** k, 2 ** rng.randint(0, 128), 256 ** rng.randint(0, 16)])
         n = base + rng.choice([-2, -1, 0, 1, 2])
+        if rng.random() < 0.35:
+            # the two 64-bit halves are boundary values on their own (a half that is zero, all ones, a multiple of 57)
+            half = lambda: rng.choice([0, 0, 1, 56, 57, 58, 57 * rng.getrandbits(rng.randint(1, 58)), 2 ** 63,
+                                       2 ** 64 - 1, 2 ** rng.randint(0, 63), rng.getrandbits(64)])
+            n = (half() << 64) | half()
+            ctx.count("numbers_made_of_two_boundary_halves")
         n = min(max(n, 0), TOP - 1)
         check_int(ctx, n, alpha, seen, "boundary")
     elif r == 1:  # small numbers (padding)
@@ -214,8 +222,13 @@ def one_case(ctx, rng, alpha, seen, i):
         check_string(ctx, s, alpha, "junk_around_valid")
     elif r == 6 and i % 32 == 14:  # a valid short string decorated the way canonical strings may be
         s = model_encode(rng.getrandbits(128) if rng.random() < 0.7 else rng.getrandbits(60), alpha)
-        k = rng.randrange(8)
-        if k == 0:
+        k = rng.randrange(11)
+        if k >= 8:
+            # still in the quotes of the dump it was copied from
+            q = rng.choice(["\"", "'", "`"])
+            s = q + s + q if k < 10 else q + s[:20] + q
+            ctx.count("quoted_strings")
+        elif k == 0:
             s = "-" + s
         elif k == 1:
             s = s + "-"
@@ -258,6 +271,10 @@ def one_case(ctx, rng, alpha, seen, i):
             canon = list(str(uuid.UUID(int=rng.getrandbits(128))))
             pos = rng.randrange(len(canon))
             canon[pos] = rng.choice("gG zZ-_" + alpha)
+            if rng.random() < 0.15:
+                q = rng.choice(["\"", "'"])
+                canon = [q] + list(str(uuid.UUID(int=rng.getrandbits(128)))) + [q]     # an intact one, in quotes
+                ctx.count("quoted_strings")
             check_string(ctx, "".join(canon), alpha, "damaged_canonical")
 
 
